@@ -501,3 +501,339 @@ Proof.
   unfold C05_synth_fwd_sound. intros rho e v Hwf Hdom. cbv zeta.
   exact (SY_fwd_ok rho v e Hwf Hdom).
 Qed.
+
+(** non-vacuity: a tree with a product, a quotient, a root, a power and a logarithm, in its
+    domain at x1 = 2, x2 = 3 *)
+Example SY_fwd_example :
+  let e := Mul [Var 1%positive; Divide (Var 2%positive) (NthRoot (Var 1%positive) 2%positive);
+                Power (Var 1%positive) (Var 2%positive);
+                Log (Var 2%positive) 10; Exp (Var 1%positive) 2] in
+  let rho := fun x : name => if Pos.eqb x 1%positive then 2 else 3 in
+  wfR e /\ InDomain rho e.
+Proof.
+  cbn [wf InDomain denote fold_right]. cbn [Pos.eqb].
+  change (nltb RInst) with Rltb. change (neqb RInst) with Reqb.
+  change (n0 RInst) with 0. change (n1 RInst) with 1.
+  assert (H2 : root 2 2 <> 0) by (apply SY_root_neq_0; lra).
+  repeat split; try (apply Rltb_true; lra); try (apply Reqb_false; lra); try lra; try exact H2.
+Qed.
+
+(** ** Reverse route: the accumulator *)
+
+Definition sval (rho : env) (acc : @saccum R) (v : name) : R :=
+  match slookup v acc with Some s => denote rho s | None => 0 end.
+
+Definition acc_inv (rho : env) (V : list name) (acc : @saccum R) : Prop :=
+  forall x s, slookup x acc = Some s -> wfR s /\ InDomain rho s /\ incl (vars s) V.
+
+Lemma SY_slookup_set (acc : @saccum R) x c y :
+  slookup y (sacc_set acc x c) = if name_eqb y x then Some c else slookup y acc.
+Proof.
+  unfold name_eqb. induction acc as [|[z w] r IH]; cbn [sacc_set slookup]; unfold name_eqb.
+  - reflexivity.
+  - destruct (Pos.eqb x z) eqn:Exz; cbn [slookup]; unfold name_eqb.
+    + apply Pos.eqb_eq in Exz. subst z. destruct (Pos.eqb y x); reflexivity.
+    + rewrite IH. destruct (Pos.eqb y z) eqn:Eyz; [|reflexivity].
+      apply Pos.eqb_eq in Eyz. subst z.
+      destruct (Pos.eqb y x) eqn:Eyx; [|reflexivity].
+      apply Pos.eqb_eq in Eyx. subst y. rewrite Pos.eqb_refl in Exz. discriminate.
+Qed.
+
+Lemma SY_slookup_add (acc : @saccum R) x c y :
+  slookup y (sacc_add acc x c) =
+  if name_eqb y x
+  then Some (match slookup x acc with Some ex => Add [ex; c] | None => c end)
+  else slookup y acc.
+Proof. unfold sacc_add. destruct (slookup x acc); apply SY_slookup_set. Qed.
+
+Lemma SY_sacc_add_inv rho V acc x c :
+  acc_inv rho V acc -> wfR c -> InDomain rho c -> incl (vars c) V ->
+  acc_inv rho V (sacc_add acc x c).
+Proof.
+  intros Hacc Hw Hd Hv y s. rewrite SY_slookup_add.
+  destruct (name_eqb y x); [|apply Hacc].
+  intro E. injection E as <-.
+  destruct (slookup x acc) as [ex|] eqn:Ex; [|auto].
+  destruct (Hacc _ _ Ex) as (E1 & E2 & E3).
+  cbn [wf InDomain vars flat_map fold_right]. rewrite app_nil_r.
+  repeat split; try assumption. apply incl_app; assumption.
+Qed.
+
+Lemma SY_sacc_add_val rho acc x c v :
+  sval rho (sacc_add acc x c) v =
+  sval rho acc v + (if name_eqb v x then denote rho c else 0).
+Proof.
+  unfold sval. rewrite SY_slookup_add. unfold name_eqb.
+  destruct (Pos.eqb v x) eqn:E; [|ring].
+  apply Pos.eqb_eq in E. subst v.
+  destruct (slookup x acc); cbn [denote fold_right]; ring.
+Qed.
+
+(** the two inner loops of [synth_rev], named *)
+Definition rev_add_go (m : expr R) :=
+  fix go (l : list (expr R)) (acc : @saccum R) {struct l} : @saccum R :=
+    match l with
+    | [] => acc
+    | x :: r => go r (srev x m acc)
+    end.
+
+Definition rev_mul_go (m : expr R) (l : list (expr R)) :=
+  fix go (i : nat) (r : list (expr R)) (acc : @saccum R) {struct r} : @saccum R :=
+    match r with
+    | [] => acc
+    | x :: r' => go (S i) r' (srev x (Mul (m :: remove_nth i l)) acc)
+    end.
+
+Lemma SY_srev_Add l m acc : srev (Add l) m acc = rev_add_go m l acc.
+Proof. reflexivity. Qed.
+Lemma SY_srev_Mul l m acc : srev (Mul l) m acc = rev_mul_go m l 0 l acc.
+Proof. reflexivity. Qed.
+
+(** [e] pushed with multiplier [m] into [acc]: the invariant is kept and every entry grows by
+    [denote rho m * (true partial of e)] *)
+Definition rev_ok (rho : env) (V : list name) (e : expr R) : Prop :=
+  forall m acc, wfR m -> InDomain rho m -> incl (vars m) V -> acc_inv rho V acc ->
+    acc_inv rho V (srev e m acc) /\
+    forall v d, true_partial rho e v d ->
+      sval rho (srev e m acc) v = sval rho acc v + denote rho m * d.
+
+Lemma SY_tp_fwd rho v e : wfR e -> InDomain rho e ->
+  true_partial rho e v (denote rho (sfwd v e)).
+Proof. intros Hw Hd. apply (SY_fwd_ok rho v e Hw Hd). Qed.
+
+Lemma SY_rev_unary rho V e a :
+  unary_spec rho e a -> (forall m acc, srev e m acc = srev a (suf e m) acc) ->
+  incl (vars e) V ->
+  (wfR a -> InDomain rho a -> incl (vars a) V -> rev_ok rho V a) -> rev_ok rho V e.
+Proof.
+  intros (Hwa & Hda & Hv & k & Hm & Htp) E HV IH m acc Hwm Hdm Hvm Hacc.
+  rewrite Hv in HV.
+  destruct (Hm _ Hwm Hdm) as (M1 & M2 & M3 & M4).
+  assert (M2' : incl (vars (suf e m)) V).
+  { intros x Hx. apply M2 in Hx. apply in_app_or in Hx. destruct Hx; auto. }
+  destruct (IH Hwa Hda HV (suf e m) acc M1 M3 M2' Hacc) as [I1 I2].
+  rewrite E. split; [exact I1|].
+  intros v d Hd.
+  pose proof (SY_tp_fwd rho v a Hwa Hda) as Ha.
+  rewrite (I2 v _ Ha), M4.
+  rewrite (tp_unique rho v e _ _ Hd (Htp v _ Ha)). ring.
+Qed.
+
+Lemma SY_rev_binary rho V e a b fl fr :
+  binary_spec rho e a b fl fr ->
+  (forall m acc, srev e m acc = srev b (fr m) (srev a (fl m) acc)) ->
+  incl (vars e) V ->
+  (wfR a -> InDomain rho a -> incl (vars a) V -> rev_ok rho V a) ->
+  (wfR b -> InDomain rho b -> incl (vars b) V -> rev_ok rho V b) -> rev_ok rho V e.
+Proof.
+  intros (Hwa & Hwb & Hda & Hdb & Hv & ka & kb & Hl & Hr & Htp) E HV IHa IHb
+         m acc Hwm Hdm Hvm Hacc.
+  assert (HVa : incl (vars a) V).
+  { intros x Hx. apply HV. rewrite Hv. apply in_or_app; auto. }
+  assert (HVb : incl (vars b) V).
+  { intros x Hx. apply HV. rewrite Hv. apply in_or_app; auto. }
+  destruct (Hl _ Hwm Hdm) as (L1 & L2 & L3 & L4).
+  destruct (Hr _ Hwm Hdm) as (R1 & R2 & R3 & R4).
+  assert (L2' : incl (vars (fl m)) V).
+  { intros x Hx. apply L2 in Hx. apply in_app_or in Hx. destruct Hx; auto. }
+  assert (R2' : incl (vars (fr m)) V).
+  { intros x Hx. apply R2 in Hx. apply in_app_or in Hx. destruct Hx; auto. }
+  destruct (IHa Hwa Hda HVa (fl m) acc L1 L3 L2' Hacc) as [A1 A2].
+  destruct (IHb Hwb Hdb HVb (fr m) _ R1 R3 R2' A1) as [B1 B2].
+  rewrite E. split; [exact B1|].
+  intros v d Hd.
+  pose proof (SY_tp_fwd rho v a Hwa Hda) as Ha.
+  pose proof (SY_tp_fwd rho v b Hwb Hdb) as Hb.
+  rewrite (B2 v _ Hb), (A2 v _ Ha), L4, R4.
+  rewrite (tp_unique rho v e _ _ Hd (Htp v _ _ Ha Hb)). ring.
+Qed.
+
+Lemma SY_rev_const rho V c : rev_ok rho V (Const c).
+Proof.
+  intros m acc Hwm Hdm Hvm Hacc. cbn [synth_rev]. split; [exact Hacc|].
+  intros v d Hd. rewrite (tp_unique rho v _ _ _ Hd (tp_const rho v c)). ring.
+Qed.
+
+Lemma SY_rev_var rho V x : rev_ok rho V (Var x).
+Proof.
+  intros m acc Hwm Hdm Hvm Hacc. cbn [synth_rev]. split.
+  - apply SY_sacc_add_inv; assumption.
+  - intros v d Hd. rewrite SY_sacc_add_val. unfold name_eqb.
+    destruct (Pos.eqb v x) eqn:E.
+    + apply Pos.eqb_eq in E. subst x.
+      rewrite (tp_unique rho v _ _ _ Hd (tp_var_same rho v)). ring.
+    + apply Pos.eqb_neq in E.
+      assert (E' : x <> v) by congruence.
+      rewrite (tp_unique rho v _ _ _ Hd (tp_var_other rho v x E')). ring.
+Qed.
+
+Lemma SY_rev_minus rho V a b :
+  wfR (Minus a b) -> InDomain rho (Minus a b) ->
+  rev_ok rho V a -> rev_ok rho V b -> rev_ok rho V (Minus a b).
+Proof.
+  intros [Hwa Hwb] [Hda Hdb] IHa IHb m acc Hwm Hdm Hvm Hacc. cbn [synth_rev].
+  destruct (IHa m acc Hwm Hdm Hvm Hacc) as [A1 A2].
+  destruct (IHb (Neg m) _ Hwm Hdm Hvm A1) as [B1 B2].
+  split; [exact B1|].
+  intros v d Hd.
+  pose proof (SY_tp_fwd rho v a Hwa Hda) as Ha.
+  pose proof (SY_tp_fwd rho v b Hwb Hdb) as Hb.
+  rewrite (B2 v _ Hb), (A2 v _ Ha).
+  rewrite (tp_unique rho v _ _ _ Hd (tp_minus rho v a b _ _ Ha Hb)).
+  cbn [denote]. ring.
+Qed.
+
+Lemma SY_rev_add_go rho V m :
+  wfR m -> InDomain rho m -> incl (vars m) V ->
+  forall l, Forall (rev_ok rho V) l ->
+  forall acc, acc_inv rho V acc ->
+    acc_inv rho V (rev_add_go m l acc) /\
+    forall v ds, Forall2 (fun a d => true_partial rho a v d) l ds ->
+      sval rho (rev_add_go m l acc) v = sval rho acc v + denote rho m * fold_right Rplus 0 ds.
+Proof.
+  intros Hwm Hdm Hvm. induction 1 as [|x r Hx Hr IH]; intros acc Hacc.
+  - cbn [rev_add_go]. split; [exact Hacc|].
+    intros v ds H. inversion H; subst. cbn [fold_right]. ring.
+  - change (rev_add_go m (x :: r) acc) with (rev_add_go m r (srev x m acc)).
+    destruct (Hx m acc Hwm Hdm Hvm Hacc) as [X1 X2].
+    destruct (IH _ X1) as [I1 I2].
+    split; [exact I1|].
+    intros v ds H. inversion H as [|? d ? ds' Hd Hds]; subst.
+    rewrite (I2 v _ Hds), (X2 v _ Hd). cbn [fold_right]. ring.
+Qed.
+
+Lemma SY_rev_mul_go rho V m l :
+  Forall wfR l -> Forall (InDomain rho) l -> Forall (fun x => incl (vars x) V) l ->
+  wfR m -> InDomain rho m -> incl (vars m) V ->
+  forall r, Forall (rev_ok rho V) r ->
+  forall i acc, acc_inv rho V acc ->
+    acc_inv rho V (rev_mul_go m l i r acc) /\
+    forall v ds, Forall2 (fun a d => true_partial rho a v d) r ds ->
+      sval rho (rev_mul_go m l i r acc) v =
+      sval rho acc v + denote rho m *
+        fold_right Rplus 0
+          (mapi_from i (fun i d => fold_right Rmult 1 (d :: remove_nth i (map (denote rho) l))) ds).
+Proof.
+  intros Hw Hd Hv Hwm Hdm Hvm. induction 1 as [|x r Hx Hr IH]; intros i acc Hacc.
+  - cbn [rev_mul_go]. split; [exact Hacc|].
+    intros v ds H. inversion H; subst. cbn [mapi_from fold_right]. ring.
+  - change (rev_mul_go m l i (x :: r) acc)
+      with (rev_mul_go m l (S i) r (srev x (Mul (m :: remove_nth i l)) acc)).
+    destruct (SY_mul_cons_ok rho V l m i Hw Hd Hv Hwm Hdm Hvm) as (M1 & M2 & M3 & M4).
+    destruct (Hx _ acc M1 M2 M3 Hacc) as [X1 X2].
+    destruct (IH (S i) _ X1) as [I1 I2].
+    split; [exact I1|].
+    intros v ds H. inversion H as [|? d ? ds' Hd' Hds]; subst.
+    rewrite (I2 v _ Hds), (X2 v _ Hd'), M4. cbn [mapi_from fold_right]. ring.
+Qed.
+
+Lemma SY_Forall_mp4 {A} (P Q S U : A -> Prop) (l : list A) :
+  Forall (fun x => P x -> Q x -> S x -> U x) l ->
+  Forall P l -> Forall Q l -> Forall S l -> Forall U l.
+Proof.
+  induction 1 as [|a l Ha Hl IH]; intros HP HQ HS; constructor;
+    inversion HP; inversion HQ; inversion HS; subst; auto.
+Qed.
+
+Lemma SY_Forall2_fwd rho v l :
+  Forall wfR l -> Forall (InDomain rho) l ->
+  Forall2 (fun a d => true_partial rho a v d) l (map (fun x => denote rho (sfwd v x)) l).
+Proof.
+  intros Hw Hd. apply SY_Forall2_map.
+  apply (SY_Forall_mp3 wfR (InDomain rho) _ l); [|exact Hw|exact Hd].
+  apply Forall_forall. intros a _ Ha1 Ha2. apply SY_tp_fwd; assumption.
+Qed.
+
+Lemma SY_rev_ok rho V : forall e, wfR e -> InDomain rho e -> incl (vars e) V -> rev_ok rho V e.
+Proof.
+  induction e as [c|x|l IHl|l IHl|a b IHa IHb|a b IHa IHb|a b IHa IHb
+                  |a IHa|a IHa|a IHa|a IHa|a n IHa|a n IHa|a b IHa|a b IHa] using expr_ind';
+    intros Hwf Hdom HV.
+  - apply SY_rev_const.
+  - apply SY_rev_var.
+  - apply SY_wf_Add in Hwf. apply SY_dom_Add in Hdom.
+    cbn [vars] in HV. apply SY_incl_flat_map in HV.
+    pose proof (SY_Forall_mp4 _ _ _ _ l IHl Hwf Hdom HV) as Hok.
+    intros m acc Hwm Hdm Hvm Hacc. rewrite SY_srev_Add.
+    destruct (SY_rev_add_go rho V m Hwm Hdm Hvm l Hok acc Hacc) as [G1 G2].
+    split; [exact G1|].
+    intros v d Hd.
+    pose proof (SY_Forall2_fwd rho v l Hwf Hdom) as HF.
+    rewrite (G2 v _ HF).
+    rewrite (tp_unique rho v _ _ _ Hd (tp_add rho v l _ HF)). reflexivity.
+  - apply SY_wf_Mul in Hwf. apply SY_dom_Mul in Hdom.
+    cbn [vars] in HV. apply SY_incl_flat_map in HV.
+    pose proof (SY_Forall_mp4 _ _ _ _ l IHl Hwf Hdom HV) as Hok.
+    intros m acc Hwm Hdm Hvm Hacc. rewrite SY_srev_Mul.
+    destruct (SY_rev_mul_go rho V m l Hwf Hdom HV Hwm Hdm Hvm l Hok 0%nat acc Hacc) as [G1 G2].
+    split; [exact G1|].
+    intros v d Hd.
+    pose proof (SY_Forall2_fwd rho v l Hwf Hdom) as HF.
+    rewrite (G2 v _ HF).
+    rewrite (tp_unique rho v _ _ _ Hd (tp_mul rho v l _ HF)). reflexivity.
+  - pose proof Hwf as [Hwa Hwb]. pose proof Hdom as [Hda Hdb].
+    cbn [vars] in HV.
+    apply SY_rev_minus; try assumption.
+    + apply IHa; try assumption. intros y Hy. apply HV, in_or_app; auto.
+    + apply IHb; try assumption. intros y Hy. apply HV, in_or_app; auto.
+  - eapply SY_rev_binary;
+      [apply SY_divide; assumption | reflexivity | exact HV | exact IHa | exact IHb].
+  - eapply SY_rev_binary;
+      [apply SY_power; assumption | reflexivity | exact HV | exact IHa | exact IHb].
+  - eapply SY_rev_unary; [apply SY_neg; assumption | reflexivity | exact HV | exact IHa].
+  - eapply SY_rev_unary; [apply SY_recip; assumption | reflexivity | exact HV | exact IHa].
+  - eapply SY_rev_unary; [apply SY_sin; assumption | reflexivity | exact HV | exact IHa].
+  - eapply SY_rev_unary; [apply SY_cos; assumption | reflexivity | exact HV | exact IHa].
+  - eapply SY_rev_unary; [apply SY_nth_pow; assumption | reflexivity | exact HV | exact IHa].
+  - eapply SY_rev_unary; [apply SY_nth_root; assumption | reflexivity | exact HV | exact IHa].
+  - eapply SY_rev_unary; [apply SY_exp; assumption | reflexivity | exact HV | exact IHa].
+  - eapply SY_rev_unary; [apply SY_log; assumption | reflexivity | exact HV | exact IHa].
+Qed.
+
+Lemma SY_slookup_for (A : @saccum R) (enum : list name) (v : name) :
+  In v enum ->
+  slookup v (synthetic_partials_for RInst A enum) =
+  Some (match slookup v A with Some w => w | None => Const 0 end).
+Proof.
+  unfold synthetic_partials_for.
+  induction enum as [|x enum IH]; intro H; [destruct H|].
+  cbn [map slookup]. unfold name_eqb. destruct (Pos.eqb v x) eqn:E.
+  - apply Pos.eqb_eq in E. subst x. reflexivity.
+  - apply Pos.eqb_neq in E. destruct H as [H|H]; [congruence|]. apply IH, H.
+Qed.
+
+Theorem synth_rev_sound : C05_synth_rev_sound.
+Proof.
+  unfold C05_synth_rev_sound. intros rho e enum v Hwf Hdom Hin.
+  unfold synthetic_partials. rewrite SY_slookup_for by exact Hin.
+  eexists; split; [reflexivity|].
+  assert (Hnil : acc_inv rho (vars e) []).
+  { intros x s H. discriminate H. }
+  destruct (SY_rev_ok rho (vars e) e Hwf Hdom (incl_refl _) (Const 1) []
+              I I (fun x (H : In x []) => match H with end) Hnil) as [Hinv Hval].
+  pose proof (SY_tp_fwd rho v e Hwf Hdom) as Htp.
+  specialize (Hval v _ Htp).
+  unfold sval in Hval. cbn [slookup denote] in Hval.
+  change (Const (n1 RInst)) with (Const 1).
+  destruct (slookup v (srev e (Const 1) [])) as [w|] eqn:Ew.
+  - destruct (Hinv _ _ Ew) as (W1 & W2 & W3).
+    sy_split4; try assumption.
+    eapply tp_ext_value; [exact Htp | rewrite Hval; ring].
+  - cbn [wf InDomain vars denote]. sy_split4; try exact I; [intros x [] | ].
+    eapply tp_ext_value; [exact Htp | ]. change (n0 RInst) with 0. lra.
+Qed.
+
+(** non-vacuity of the reverse statement: same tree, both variables enumerated *)
+Example SY_rev_example :
+  let e := Mul [Var 1%positive; Divide (Var 2%positive) (NthRoot (Var 1%positive) 2%positive);
+                Power (Var 1%positive) (Var 2%positive);
+                Log (Var 2%positive) 10; Exp (Var 1%positive) 2] in
+  let rho := fun x : name => if Pos.eqb x 1%positive then 2 else 3 in
+  wfR e /\ InDomain rho e /\ In 2%positive [1%positive; 2%positive].
+Proof.
+  pose proof SY_fwd_example as [H1 H2]. cbv zeta.
+  split; [exact H1 | split; [exact H2 | right; left; reflexivity]].
+Qed.
+
+Print Assumptions synth_fwd_sound.
+Print Assumptions synth_rev_sound.
